@@ -415,11 +415,14 @@ func build(s *core.Shard, i int) *Case {
 			if n == nil || n.id == 0 || envOf(n) == nil {
 				continue
 			}
-			ev := svcs.Sub[name].Sub["environment"]
-			if ev == nil {
-				continue
+			var kvs []decomp.KV
+			if ev := svcs.Sub[name].Sub["environment"]; ev != nil {
+				kvs = append(kvs, ev.KVs...)
 			}
-			for _, kv := range ev.KVs {
+			if b := svcs.Sub[name].Sub["build"]; b != nil && b.Sub["args"] != nil {
+				kvs = append(kvs, b.Sub["args"].KVs...) // build arguments are resolved the same way
+			}
+			for _, kv := range kvs {
 				if kv.V != nil || r.Intn(2) == 0 {
 					continue
 				}
